@@ -24,7 +24,7 @@ LEVEL_NOTE = 'Trusted: vlib/reflex.py, vlib/luagen.py.'
 TECHNIQUE = 'Hypothesis-generated header shapes and programs; byte-prefix + reference-lexer token oracles'
 
 WORDS = [b'my game', b'by someone', b'v1.0', b'', b'title: x=1', b'\x8e\x97 glyphs', b'end', b'"quoted', b'a -- b',
-         b'// c', b'[[', b'if (a) b', b'--']
+         b'// c', b'[[', b'if (a) b', b'--', b'[==[ star hopper ]==]', b'[=[ by c19 ]=]']
 
 
 def gen_header(ch, nl):
@@ -37,10 +37,14 @@ def gen_header(ch, nl):
     for i in range(k):
         kind = ch.weighted([(120, 'dash'), (30, 'slash'), (40, 'block'), (20, 'mblock')])
         word = ch.pick(WORDS)
+        levelled = word.startswith(b'[=')
+        if levelled and kind != 'dash':
+            word = WORDS[0]
+            levelled = False
         if kind == 'dash':
             sp = ch.pick([b'', b' '])
-            if word.startswith(b'[') and sp == b'':
-                sp = b' '
+            if word.startswith(b'[') and not word.startswith(b'[=') and sp == b'':
+                sp = b' '         # (`--[[` would open a block comment; a one-line `--[==[ x ]==]` is a comment under every reading)
             c = b'--' + sp + word
         elif kind == 'slash':
             c = b'//' + ch.pick([b'', b' ']) + word
@@ -60,7 +64,10 @@ def gen_header(ch, nl):
             else:
                 continue_same = True  # noqa
         else:
-            parts.append(ch.pick([b'', b'', b' ', b'\t']) + nl)
+            trail = ch.pick([b'', b'', b' ', b'\t'])
+            # (a one-line levelled comment ends at its closing bracket for Lua and at the line end for picotool: keep
+            # the two readings identical by putting nothing between the bracket and the line end)
+            parts.append((b'' if levelled else trail) + nl)
             if ch.chance(40):
                 parts.append(ch.pick([nl, b'  ' + nl, nl + nl]))
             if ch.chance(30):
